@@ -795,5 +795,436 @@ Proof.
     apply tlen_set_bin. exact Hi.
 Qed.
 
+(* ------------------------------------------------------------------------------------------ *)
+(** * The operations *)
+
+Lemma WF_WFS s : WF s -> WFS s.
+Proof. intros H. apply WF_iff in H. apply H. Qed.
+
+Lemma abs_wf s k : WF s -> abs khash s k = option_map ent (lookup (nodes s) k).
+Proof. intros H. apply abs_lookup. apply WF_WFS. exact H. Qed.
+
+Lemma WF_some s t : WF s -> tbl s = Some t -> WFT khash t.
+Proof. intros H E. apply WF_WFS in H. apply (WFS_some s t E) in H. apply H. Qed.
+
+(* in a state with a table, a lookup reads the bin selected by the hash *)
+Lemma lookup_bin s t k :
+  WF s -> tbl s = Some t ->
+  lookup (nodes s) k = lookup (bin_nodes (get_bin t (bini t (khash k)))) k.
+Proof. intros H E. unfold nodes. rewrite E. apply (WFT_lookup khash). apply (WF_some s t H E). Qed.
+
+Lemma init_table_ok s :
+  WF s ->
+  WF (init_table s) /\ nodes (init_table s) = nodes s /\ (exists t, tbl (init_table s) = Some t) /\
+  (tbl s <> None -> init_table s = s) /\ tlen_s s <= tlen_s (init_table s) /\
+  (sized s -> sized (init_table s)).
+Proof.
+  intros H. unfold init_table. destruct (tbl s) as [[|b t]|] eqn:Et.
+  - exfalso. pose proof (WFT_len_pos khash _ (WF_some s [] H Et)). cbn [length] in *. lia.
+  - split; [exact H|]. split; [reflexivity|]. split; [exists (b :: t); exact Et|].
+    split; [reflexivity|]. split; [lia|tauto].
+  - pose proof H as H0. apply WF_iff in H0 as [Hs Hc]. unfold WFS in Hs. rewrite Et in Hs.
+    unfold nodes in Hc. rewrite Et in Hc. cbn [length] in Hc.
+    assert (Hn : exists j : nat, (j <= 30)%nat /\ init_table_n (sc s) = 2 ^ Z.of_nat j).
+    { unfold init_table_n, DEFAULT_CAPACITY. destruct Hs as [->|(j & Hj & ->)].
+      - exists 4%nat. split; [lia|reflexivity].
+      - exists j. split; [exact Hj|]. pose proof (pow2_pos j).
+        destruct (Z.gtb_spec (2 ^ Z.of_nat j) 0); [reflexivity|lia]. }
+    destruct Hn as (j & Hj & En). rewrite En. unfold init_table_sc.
+    pose proof (WFS_empty j (cnt s) Hj) as H1.
+    split; [|split; [|split; [|split; [|split]]]].
+    + apply WF_iff. split; [exact H1|]. unfold nodes. cbn [tbl cnt]. rewrite nodes_empty_table. exact Hc.
+    + unfold nodes. cbn [tbl]. rewrite Et. apply nodes_empty_table.
+    + eexists; reflexivity.
+    + congruence.
+    + unfold tlen_s. rewrite Et. cbn [tbl]. unfold tlen. lia.
+    + intros _. unfold sized. cbn [tbl sc cnt]. left. pose proof (lf_pos _ (pow2_pos j)). lia.
+Qed.
+
+Definition put_abs (m : amap) (k i : N) (v : Z) (nr : bool) : amap :=
+  match m k with
+  | Some (i0, _) => if nr then m else aupd m k (i0, v)
+  | None => aupd m k (i, v)
+  end.
+Definition put_out (m : amap) (k : N) (v : Z) (nr : bool) : outcome :=
+  match m k with
+  | Some (_, v0) => if nr then OExists v0 v else OVal v0
+  | None => if nr then OInserted v else ONone
+  end.
+
+(* what every operation lemma establishes *)
+Definition good (s0 : st) (r : st * outcome) (m' : amap) (out : outcome) : Prop :=
+  WF (fst r) /\ (forall k, abs khash (fst r) k = m' k) /\ snd r = out /\
+  tlen_s s0 <= tlen_s (fst r) /\ (sized s0 -> sized (fst r)).
+
+Lemma placed_new t k i v :
+  placed khash (tlen t) (bini t (khash k)) (N_ (khash k) k i v).
+Proof. split; reflexivity. Qed.
+
+Lemma put_ok s0 k i v nr :
+  WF s0 -> good s0 (put khash s0 k i v nr) (put_abs (abs khash s0) k i v nr) (put_out (abs khash s0) k v nr).
+Proof.
+  intros H0. destruct (init_table_ok s0 H0) as (H & Hnodes & (t & Et) & _ & Hlen0 & Hsz0).
+  assert (Habs0 : forall k', abs khash s0 k' = abs khash (init_table s0) k').
+  { intros k'. rewrite !abs_wf by assumption. rewrite Hnodes. reflexivity. }
+  unfold put. set (s := init_table s0) in *. rewrite Et.
+  set (h := khash k). set (i0 := bini t h).
+  pose proof (WF_some s t H Et) as Ht.
+  assert (Hi : (i0 < length t)%nat) by apply (WFT_bini_lt khash t h Ht).
+  pose proof (WFT_bin_ok khash t i0 Ht Hi) as Hok.
+  pose proof (bin_ok_hk _ _ _ Hok) as Hk.
+  pose proof (lookup_bin s t k H Et) as Hlb. fold h i0 in Hlb.
+  set (e := N_ h k i v).
+  assert (Hm : abs khash s0 k = option_map ent (lookup (bin_nodes (get_bin t i0)) k)).
+  { rewrite Habs0, abs_wf by exact H. rewrite Hlb. reflexivity. }
+  unfold good, put_abs, put_out. rewrite Hm.
+  (* the three shapes of result *)
+  assert (Hsame : forall n, lookup (bin_nodes (get_bin t i0)) k = Some n ->
+            good s0 (s, OExists (nv n) v)
+              (match option_map ent (Some n) with
+               | Some (i1, _) => if true then abs khash s0 else aupd (abs khash s0) k (i1, v)
+               | None => aupd (abs khash s0) k (i, v) end)
+              (match option_map ent (Some n) with
+               | Some (_, v0) => if true then OExists v0 v else OVal v0
+               | None => if true then OInserted v else ONone end)).
+  { intros n Hn. cbn [option_map ent fst snd]. split; [exact H|]. split; [intros k'; symmetry; apply Habs0|].
+    split; [reflexivity|]. split; [exact Hlen0|exact Hsz0]. }
+  assert (Hset : forall n b' s2, lookup (bin_nodes (get_bin t i0)) k = Some n ->
+            bin_ok khash (tlen t) i0 b' ->
+            bin_nodes b' = lb_set (bin_nodes (get_bin t i0)) h k v ->
+            (WFS (mkSt (Some (set_bin t i0 b')) (sc s) (cnt s)) ->
+             grows (mkSt (Some (set_bin t i0 b')) (sc s) (cnt s)) s2) ->
+            good s0 (s2, OVal (nv n))
+              (match option_map ent (Some n) with
+               | Some (i1, _) => if false then abs khash s0 else aupd (abs khash s0) k (i1, v)
+               | None => aupd (abs khash s0) k (i, v) end)
+              (match option_map ent (Some n) with
+               | Some (_, v0) => if false then OExists v0 v else OVal v0
+               | None => if false then OInserted v else ONone end)).
+  { intros n b' s2 Hn Hb' Hnb Hg.
+    destruct (set_finish s t i0 b' k v n s2 H Et Hi Hn Hb' Hnb Hg) as (F1 & F2 & F3 & F4 & F5).
+    cbn [option_map ent fst snd]. split; [exact F1|]. split; [|split; [reflexivity|split; [eapply Z.le_trans; [exact Hlen0|exact F4]|tauto]]].
+    intros k'. rewrite abs_wf by exact F1. rewrite F2. unfold aupd. rewrite Habs0, abs_wf by exact H.
+    destruct (k' =? k)%N; reflexivity. }
+  assert (Hadd : forall b' s2, lookup (bin_nodes (get_bin t i0)) k = None ->
+            bin_ok khash (tlen t) i0 b' ->
+            Permutation (bin_nodes b') (e :: bin_nodes (get_bin t i0)) ->
+            (WFS (mkSt (Some (set_bin t i0 b')) (sc s) (cnt s)) ->
+             grows (mkSt (Some (set_bin t i0 b')) (sc s) (cnt s)) s2) ->
+            good s0 (add_count s2 1 true, if nr then OInserted v else ONone)
+              (match option_map ent (@None node) with
+               | Some (i1, _) => if nr then abs khash s0 else aupd (abs khash s0) k (i1, v)
+               | None => aupd (abs khash s0) k (i, v) end)
+              (match option_map ent (@None node) with
+               | Some (_, v0) => if nr then OExists v0 v else OVal v0
+               | None => if nr then OInserted v else ONone end)).
+  { intros b' s2 Hn Hb' Hp Hg. assert (Hn' : lookup (nodes s) (nk e) = None) by (change (nk e) with k; rewrite Hlb; exact Hn).
+    destruct (add_finish s t i0 b' e s2 H Et Hi Hn' Hb' Hp Hg) as (F1 & F2 & F3 & F4).
+    cbn [option_map fst snd]. split; [exact F1|]. split; [|split; [reflexivity|split; [eapply Z.le_trans; [exact Hlen0|exact F3]|intros _; exact F4]]].
+    intros k'. rewrite abs_wf by exact F1. rewrite F2. unfold aupd. rewrite Habs0, abs_wf by exact H.
+    change (nk e) with k. destruct (k' =? k)%N; reflexivity. }
+  clearbody s. clear Hm. subst h.
+  destruct (get_bin t i0) as [|l|b|] eqn:Eb; cbn [bin_nodes] in *.
+  - (* empty bin *)
+    apply (Hadd (BList [e]) _ eq_refl).
+    + cbn [bin_ok]. split; [discriminate|]. intros n [<-|[]]. apply placed_new.
+    + reflexivity.
+    + apply grows_refl.
+  - (* list bin *)
+    destruct Hok as [Hne Hp]. rewrite (lb_find_lookup khash l k Hk).
+    destruct (lookup l k) as [n|] eqn:El.
+    + destruct nr; [apply Hsame; reflexivity|].
+      apply (Hset n (BList (lb_set l (khash k) k v))); [reflexivity| |reflexivity|].
+      * apply (bin_set_ok (tlen t) i0 (BList l) k v). split; assumption.
+      * intros Hs1. destruct (put_treeify _); [apply treeify_bin_grows|apply grows_refl]; exact Hs1.
+    + apply (Hadd (BList (l ++ [e]))); [reflexivity| | |].
+      * cbn [bin_ok]. split; [destruct l; discriminate|]. intros n Hn.
+        apply in_app_or in Hn as [Hn|[<-|[]]]; [apply Hp; exact Hn|apply placed_new].
+      * cbn [bin_nodes]. apply Permutation_sym, Permutation_cons_append.
+      * intros Hs1. destruct (put_treeify _); [apply treeify_bin_grows|apply grows_refl]; exact Hs1.
+  - (* tree bin *)
+    destruct Hok as [Hb Hp]. rewrite (Hyp_find b (khash k) k Hb), (lb_find_lookup khash (tord b) k Hk).
+    destruct (lookup (tord b) k) as [n|] eqn:El.
+    + destruct nr; [apply Hsame; reflexivity|].
+      apply (Hset n (BTree (tb_set b (khash k) k v))); [reflexivity| |reflexivity|apply grows_refl].
+      apply (bin_set_ok (tlen t) i0 (BTree b) k v). split; assumption.
+    + apply (Hadd (BTree (tb_put b e))); [reflexivity| |reflexivity|apply grows_refl].
+      cbn [bin_ok tb_put tord]. split.
+      * apply Hyp_put; [exact Hb| |].
+        -- cbn [nh nk e]. rewrite (lb_find_lookup khash (tord b) k Hk). exact El.
+        -- intros a Ha. cbn [nk e]. apply (lookup_none _ _ El a Ha).
+      * intros n [<-|Hn]; [apply placed_new|apply Hp; exact Hn].
+  - destruct Hok.
+Qed.
+
+(* ---------- remove ---------- *)
+
+Lemma remove_some s t k :
+  WF s -> tbl s = Some t ->
+  Seq.remove khash s k =
+  match bin_find (get_bin t (bini t (khash k))) (khash k) k with
+  | None => (s, None)
+  | Some n =>
+      (add_count (mkSt (Some (set_bin t (bini t (khash k))
+                                (bin_remove (get_bin t (bini t (khash k))) (khash k) k)))
+                       (sc s) (cnt s)) (-1) false, Some n)
+  end.
+Proof.
+  intros H Et. unfold Seq.remove. rewrite Et. pose proof (WFT_len_pos khash t (WF_some s t H Et)).
+  destruct t; [cbn [length] in *; lia|reflexivity].
+Qed.
+
+Lemma remove_ok s k :
+  WF s ->
+  WF (fst (Seq.remove khash s k)) /\
+  (forall k', lookup (nodes (fst (Seq.remove khash s k))) k' =
+              if (k' =? k)%N then None else lookup (nodes s) k') /\
+  snd (Seq.remove khash s k) = lookup (nodes s) k /\
+  tlen_s (fst (Seq.remove khash s k)) = tlen_s s /\
+  (sized s -> sized (fst (Seq.remove khash s k))).
+Proof.
+  intros H. destruct (tbl s) as [t|] eqn:Et.
+  - rewrite (remove_some s t k H Et). set (i := bini t (khash k)).
+    pose proof (WF_some s t H Et) as Ht.
+    assert (Hi : (i < length t)%nat) by apply (WFT_bini_lt khash t _ Ht).
+    pose proof (WFT_bin_ok khash t i Ht Hi) as Hok.
+    pose proof (lookup_bin s t k H Et) as Hlb. fold i in Hlb.
+    rewrite (bin_find_lookup _ _ _ k Hok).
+    destruct (lookup (bin_nodes (get_bin t i)) k) as [n|] eqn:El; cbn [fst snd].
+    + assert (Hf : lookup (bin_nodes (get_bin t i)) k <> None) by (rewrite El; discriminate).
+      destruct (bin_remove_ok _ _ _ k Hok Hf) as [B1 B2].
+      destruct (del_finish s t i _ k n false H Et Hi El B1 B2) as (F1 & F2 & F3 & F4 & F5 & F6).
+      split; [exact F1|]. split; [exact F2|]. split; [rewrite Hlb; reflexivity|]. split; [apply F6; reflexivity|exact F5].
+    + split; [exact H|]. split; [|split; [rewrite Hlb; reflexivity|split; [reflexivity|tauto]]].
+      intros k'. destruct (N.eqb_spec k' k) as [->|]; [exact Hlb|reflexivity].
+  - assert (E : Seq.remove khash s k = (s, None)) by (unfold Seq.remove; rewrite Et; reflexivity).
+    rewrite E. cbn [fst snd]. unfold nodes. rewrite Et.
+    split; [exact H|]. split; [intros k'; destruct (k' =? k)%N; reflexivity|].
+    split; [reflexivity|split; [reflexivity|tauto]].
+Qed.
+
+(* ---------- compute_if_present ---------- *)
+
+Lemma compute_some s0 t k f :
+  tbl (init_table s0) = Some t ->
+  get_bin t (bini t (khash k)) <> BMoved ->
+  compute khash remap s0 k f =
+  let s := init_table s0 in
+  let i := bini t (khash k) in
+  match bin_find (get_bin t i) (khash k) k with
+  | None => (s, ONone)
+  | Some n =>
+      match remap f k (nv n) with
+      | Some v' => (mkSt (Some (set_bin t i (bin_set (get_bin t i) (khash k) k v'))) (sc s) (cnt s), OVal v')
+      | None => (add_count (mkSt (Some (set_bin t i (bin_remove (get_bin t i) (khash k) k))) (sc s) (cnt s))
+                           (-1) true, ONone)
+      end
+  end.
+Proof.
+  intros Et Hb. unfold compute. rewrite Et. cbv zeta.
+  destruct (get_bin t (bini t (khash k))); try reflexivity. contradiction.
+Qed.
+
+Definition compute_abs (m : amap) (k f : N) : amap :=
+  match m k with
+  | Some (i, v) => match remap f k v with Some v' => aupd m k (i, v') | None => adel m k end
+  | None => m
+  end.
+Definition compute_out (m : amap) (k f : N) : outcome :=
+  match m k with
+  | Some (_, v) => match remap f k v with Some v' => OVal v' | None => ONone end
+  | None => ONone
+  end.
+
+Lemma compute_ok s0 k f :
+  WF s0 -> good s0 (compute khash remap s0 k f) (compute_abs (abs khash s0) k f) (compute_out (abs khash s0) k f).
+Proof.
+  intros H0. destruct (init_table_ok s0 H0) as (H & Hnodes & (t & Et) & _ & Hlen0 & Hsz0).
+  assert (Habs0 : forall k', abs khash s0 k' = abs khash (init_table s0) k').
+  { intros k'. rewrite !abs_wf by assumption. rewrite Hnodes. reflexivity. }
+  pose proof (WF_some _ t H Et) as Ht. set (i := bini t (khash k)).
+  assert (Hi : (i < length t)%nat) by apply (WFT_bini_lt khash t _ Ht).
+  pose proof (WFT_bin_ok khash t i Ht Hi) as Hok.
+  rewrite (compute_some s0 t k f Et (bin_ok_not_moved khash _ _ _ Hok)). cbv zeta. fold i.
+  set (s := init_table s0) in *.
+  pose proof (lookup_bin s t k H Et) as Hlb. fold i in Hlb.
+  assert (Hm : abs khash s0 k = option_map ent (lookup (bin_nodes (get_bin t i)) k)).
+  { rewrite Habs0, abs_wf by exact H. rewrite Hlb. reflexivity. }
+  unfold good, compute_abs, compute_out. rewrite Hm.
+  rewrite (bin_find_lookup _ _ _ k Hok).
+  destruct (lookup (bin_nodes (get_bin t i)) k) as [n|] eqn:El; cbn [option_map ent].
+  - destruct (remap f k (nv n)) as [v'|] eqn:Er; cbn [fst snd].
+    + destruct (bin_set_ok _ _ _ k v' Hok) as [B1 B2].
+      destruct (set_finish s t i _ k v' n _ H Et Hi El B1 B2 (grows_refl _)) as (F1 & F2 & F3 & F4 & F5).
+      split; [exact F1|]. split; [|split; [reflexivity|split; [eapply Z.le_trans; [exact Hlen0|exact F4]|tauto]]].
+      intros k'. rewrite abs_wf by exact F1. rewrite F2. unfold aupd. rewrite Habs0, abs_wf by exact H.
+      destruct (k' =? k)%N; reflexivity.
+    + assert (Hf : lookup (bin_nodes (get_bin t i)) k <> None) by (rewrite El; discriminate).
+      destruct (bin_remove_ok _ _ _ k Hok Hf) as [B1 B2].
+      destruct (del_finish s t i _ k n true H Et Hi El B1 B2) as (F1 & F2 & F3 & F4 & F5 & F6).
+      split; [exact F1|]. split; [|split; [reflexivity|split; [eapply Z.le_trans; [exact Hlen0|exact F4]|tauto]]].
+      intros k'. rewrite abs_wf by exact F1. rewrite F2. unfold adel. rewrite Habs0, abs_wf by exact H.
+      destruct (k' =? k)%N; reflexivity.
+  - cbn [fst snd]. split; [exact H|]. split; [intros k'; symmetry; apply Habs0|].
+    split; [reflexivity|split; [exact Hlen0|exact Hsz0]].
+Qed.
+
+(* ---------- clear ---------- *)
+
+Definition clear_bin (b : bin) : bin := match b with BMoved => BMoved | _ => BNull end.
+
+Lemma nodes_clear t : flat_map bin_nodes (map clear_bin t) = [].
+Proof. induction t as [|b t IH]; cbn [map flat_map]; [reflexivity|]. rewrite IH. destruct b; reflexivity. Qed.
+
+Lemma WFT_clear t : WFT khash t -> WFT khash (map clear_bin t).
+Proof.
+  intros (Hp & Hb & Hd). split; [|split].
+  - rewrite map_length. exact Hp.
+  - intros i b Hi. rewrite nth_error_map in Hi. destruct (nth_error t i) as [b0|] eqn:E; [|discriminate].
+    injection Hi as <-. specialize (Hb i b0 E). destruct b0; cbn [clear_bin bin_ok] in *; tauto.
+  - rewrite nodes_clear. constructor.
+Qed.
+
+Lemma clear_ok s :
+  WF s ->
+  WF (clear s) /\ nodes (clear s) = [] /\ tlen_s (clear s) = tlen_s s /\ sized (clear s).
+Proof.
+  intros H. unfold clear. destruct (tbl s) as [t|] eqn:Et.
+  - fold clear_bin. pose proof H as H'. apply WF_iff in H' as [Hs Hc].
+    pose proof (proj1 (WFS_some s t Et) Hs) as [Ht Hsc].
+    set (s' := mkSt (Some (map clear_bin t)) (sc s) (cnt s)).
+    assert (Hs' : WFS s').
+    { unfold WFS, s'. cbn [tbl sc]. split; [apply WFT_clear; exact Ht|]. unfold tlen. rewrite map_length. exact Hsc. }
+    assert (Hn : nodes s' = []) by apply nodes_clear.
+    assert (Hlf : 1 <= sc s). { rewrite Hsc. apply lf_pos. apply (WFT_len_bounds khash t Ht). }
+    assert (Htl : tlen_s s' = tlen_s s).
+    { unfold tlen_s, s'. cbn [tbl]. rewrite Et. unfold tlen. rewrite map_length. reflexivity. }
+    destruct (Z.eqb_spec (- Z.of_nat (length (nodes s))) 0) as [E|E].
+    + split; [|split; [exact Hn|split; [exact Htl|]]].
+      * apply WF_iff. split; [exact Hs'|]. rewrite Hn. unfold s'. cbn [cnt length]. lia.
+      * unfold sized, s'. cbn [tbl sc cnt]. left. lia.
+    + unfold add_count. cbn [tbl sc cnt]. rewrite add_count_stored_eq. fold s'.
+      split; [|split; [exact Hn|split; [exact Htl|]]].
+      * apply WF_iff. split; [exact Hs'|]. cbn [cnt].
+        change (nodes {| tbl := tbl s'; sc := sc s'; cnt := cnt s' + - Z.of_nat (length (nodes s)) |}) with (nodes s').
+        rewrite Hn. unfold s'. cbn [cnt length]. lia.
+      * unfold sized, s'. cbn [tbl sc cnt]. left. lia.
+  - split; [exact H|]. unfold nodes, tlen_s, sized. rewrite Et.
+    split; [reflexivity|]. split; [reflexivity|]. apply WF_iff in H as [_ Hc]. unfold nodes in Hc.
+    rewrite Et in Hc. exact Hc.
+Qed.
+
+(* ---------- retain ---------- *)
+
+Definition retain_step (p : N) (acc : st) (n : node) : st :=
+  if keep p (nk n) (nv n) then acc else fst (Seq.remove khash acc (nk n)).
+
+Lemma retain_fold p : forall l acc,
+  WF acc -> NoDup (keys l) -> (forall n, In n l -> lookup (nodes acc) (nk n) = Some n) ->
+  WF (fold_left (retain_step p) l acc) /\
+  (forall k, lookup (nodes (fold_left (retain_step p) l acc)) k =
+             match lookup l k with
+             | Some n => if keep p k (nv n) then lookup (nodes acc) k else None
+             | None => lookup (nodes acc) k
+             end) /\
+  tlen_s (fold_left (retain_step p) l acc) = tlen_s acc /\
+  (sized acc -> sized (fold_left (retain_step p) l acc)).
+Proof.
+  induction l as [|n l IH]; intros acc H Hd Hin; cbn [fold_left].
+  - split; [exact H|]. split; [reflexivity|]. split; [reflexivity|tauto].
+  - cbn [keys map] in Hd. inversion Hd as [|? ? Hn Hd']; subst.
+    assert (Hfresh : lookup l (nk n) = None) by (apply lookup_none_keys; exact Hn).
+    unfold retain_step at 2 4 6 8. destruct (keep p (nk n) (nv n)) eqn:Ek.
+    + destruct (IH acc H Hd') as (I1 & I2 & I3 & I4); [intros n' Hn'; apply Hin; right; exact Hn'|].
+      split; [exact I1|]. split; [|split; assumption].
+      intros k. rewrite I2, lookup_cons. destruct (N.eqb_spec (nk n) k) as [<-|Hne]; [|reflexivity].
+      rewrite Hfresh, Ek. reflexivity.
+    + destruct (remove_ok acc (nk n) H) as (R1 & R2 & _ & R4 & R5).
+      set (acc1 := fst (Seq.remove khash acc (nk n))) in *.
+      destruct (IH acc1 R1 Hd') as (I1 & I2 & I3 & I4).
+      { intros n' Hn'. rewrite R2. destruct (N.eqb_spec (nk n') (nk n)) as [E|_].
+        - exfalso. apply Hn. rewrite <- E. apply in_map. exact Hn'.
+        - apply Hin. right; exact Hn'. }
+      split; [exact I1|]. split; [|split; [congruence|tauto]].
+      intros k. rewrite I2, lookup_cons, !R2. destruct (N.eqb_spec (nk n) k) as [<-|Hne].
+      * rewrite Hfresh, Ek, N.eqb_refl. reflexivity.
+      * destruct (N.eqb_spec k (nk n)) as [E|_]; [congruence|reflexivity].
+Qed.
+
+Lemma retain_ok s p :
+  WF s ->
+  WF (retain khash keep s p) /\
+  (forall k, abs khash (retain khash keep s p) k = aretain keep (abs khash s) p k) /\
+  tlen_s (retain khash keep s p) = tlen_s s /\ (sized s -> sized (retain khash keep s p)).
+Proof.
+  intros H. pose proof (WFS_nodup s (WF_WFS s H)) as Hd.
+  destruct (retain_fold p (nodes s) s H Hd) as (I1 & I2 & I3 & I4).
+  { intros n Hn. apply lookup_in; assumption. }
+  change (fold_left (retain_step p) (nodes s) s) with (retain khash keep s p) in *.
+  split; [exact I1|]. split; [|split; assumption].
+  intros k. rewrite abs_wf by exact I1. rewrite I2. unfold aretain. rewrite abs_wf by exact H.
+  destruct (lookup (nodes s) k) as [n|] eqn:E; cbn [option_map ent]; [|reflexivity].
+  destruct (keep p k (nv n)); reflexivity.
+Qed.
+
+(* ---------- reserve, extend ---------- *)
+
+Lemma grows_good s s' :
+  WF s -> grows s s' ->
+  WF s' /\ (forall k, abs khash s' k = abs khash s k) /\ tlen_s s <= tlen_s s' /\ (sized s -> sized s').
+Proof.
+  intros H G. pose proof H as H0. apply WF_iff in H0 as [Hs Hc].
+  assert (H' : WF s').
+  { apply WF_iff. split; [apply G|]. rewrite (grows_length s s' G). destruct G as (_ & _ & -> & _). exact Hc. }
+  split; [exact H'|]. split; [|split; apply G].
+  intros k. rewrite !abs_wf by assumption. rewrite (grows_lookup s s' k Hs G). reflexivity.
+Qed.
+
+Lemma reserve_ok s n :
+  WF s ->
+  WF (reserve s n) /\ (forall k, abs khash (reserve s n) k = abs khash s k) /\
+  tlen_s s <= tlen_s (reserve s n) /\ (sized s -> sized (reserve s n)).
+Proof. intros H. apply grows_good; [exact H|]. apply try_presize_grows. apply WF_WFS; exact H. Qed.
+
+Lemma ains_ext m m' k i v :
+  (forall x, m x = m' x) -> forall x, ains m k i v x = ains m' k i v x.
+Proof.
+  intros E x. unfold ains. rewrite <- (E k). destruct (m k) as [[i0 v0]|]; unfold aupd; rewrite <- (E x); reflexivity.
+Qed.
+
+Lemma aput_all_ext items : forall m m',
+  (forall x, m x = m' x) -> forall x, aput_all m items x = aput_all m' items x.
+Proof.
+  unfold aput_all. induction items as [|[[k i] v] items IH]; intros m m' E x; cbn [fold_left]; [apply E|].
+  apply IH. apply ains_ext. exact E.
+Qed.
+
+Lemma put_all_ok items : forall s,
+  WF s ->
+  WF (put_all khash s items) /\
+  (forall k, abs khash (put_all khash s items) k = aput_all (abs khash s) items k) /\
+  tlen_s s <= tlen_s (put_all khash s items) /\ (sized s -> sized (put_all khash s items)).
+Proof.
+  unfold put_all, aput_all. induction items as [|[[k i] v] items IH]; intros s H; cbn [fold_left].
+  - split; [exact H|]. split; [reflexivity|]. split; [lia|tauto].
+  - destruct (put_ok s k i v false H) as (P1 & P2 & _ & P4 & P5).
+    destruct (IH _ P1) as (I1 & I2 & I3 & I4).
+    split; [exact I1|]. split; [|split; [lia|tauto]].
+    intros x. rewrite I2. apply (aput_all_ext items). intros y. rewrite P2. reflexivity.
+Qed.
+
+Lemma extend_ok s hint items :
+  WF s ->
+  WF (extend khash s hint items) /\
+  (forall k, abs khash (extend khash s hint items) k = aput_all (abs khash s) items k) /\
+  tlen_s s <= tlen_s (extend khash s hint items) /\ (sized s -> sized (extend khash s hint items)).
+Proof.
+  intros H. unfold extend. set (r := if slen s =? 0 then hint else (hint + 1) / 2).
+  destruct (reserve_ok s r H) as (R1 & R2 & R3 & R4).
+  destruct (put_all_ok items _ R1) as (I1 & I2 & I3 & I4).
+  split; [exact I1|]. split; [|split; [lia|tauto]].
+  intros k. rewrite I2. apply aput_all_ext. exact R2.
+Qed.
+
 End TreeFacts.
 End WithHash.
